@@ -311,6 +311,25 @@ theorem C07_composite_cache_forgotten :
     shows Cfg.pinned w6 ≠ some (obs [] w6) ∧ shows Cfg.repaired w6 = some (obs [] w6) ∧
     after Cfg.pinned w6 (fun g' => g'.core.cached) = some none := by decide
 
+/-- KF-C07-6 repaired: with connections to non-siblings left out of the state the graph loads -/
+theorem C07_foreign_connection_dropped :
+    errorOf Cfg.repaired (closeUp w5) = none ∧ shows Cfg.repaired (closeUp w1) = some (obs [] w1) := by decide
+
+/-- W7 — a macro with a linked input that was loaded from file: its channels belong to the twin -/
+def w7 : Node :=
+  .mk { core0 0 100 .macro [chn 0 (v 5)] [chn 0 .nd] with inLinks := [(0, (1, 0))], outLinks := [((1, 0), 0)] }
+    [leaf 1 1 [chn 0 (v 5)] [chn 0 .nd]] noC noC
+
+/-- KF-C07-7: after the pinned `load()` a macro cannot be saved and loaded a second time: the twin that
+owns its channels is pickled along and cannot be set up (it reports value links but has no children);
+a plain node (no links) survives, and so does everything once `load()` takes the channels over -/
+theorem C07_loaded_macro_not_resavable :
+    (match loadHaunted Cfg.pinned none w7 with | .error e => some e | .ok _ => none) = some Err.key ∧
+    (match loadHaunted Cfg.repaired none w7 with | .error e => some e | .ok _ => none) = some Err.key ∧
+    shows Cfg.repaired w7 = some (obs [] w7) ∧
+    (match loadHaunted Cfg.pinned none (leaf 1 1 [chn 0 (v 5)] [chn 0 .nd]) with | .error e => some e | .ok _ => none) = none := by
+  decide
+
 /-- non-vacuity of the partial statement on the pinned code: a nested graph (workflow ⊃ macro with
 value links ⊃ leaves) in a partly run, partly failed state with `NOT_DATA`, executor instructions
 and single connections satisfies its hypotheses and round-trips through both back ends -/
@@ -401,3 +420,5 @@ end PwVerif.C07
 #print axioms PwVerif.C07.C07_running_link_unloadable
 #print axioms PwVerif.C07.C07_foreign_connection_unloadable
 #print axioms PwVerif.C07.C07_composite_cache_forgotten
+#print axioms PwVerif.C07.C07_foreign_connection_dropped
+#print axioms PwVerif.C07.C07_loaded_macro_not_resavable
